@@ -281,8 +281,13 @@ func Live(impl int64, n int) Sx {
 	} else {
 		t = sched.NewDefaultTimerQueue()
 	}
-	t.Start()
-	t.Start() // a second Start of a running scheduler is a no-op
+	// lazy start: the first start requests are made before Start() (they queue up, the
+	// 129th caller waits); the worker must pick them all up
+	lazy := n%2 == 1
+	if !lazy {
+		t.Start()
+		t.Start() // a second Start of a running scheduler is a no-op
+	}
 	ch := t.Chan()
 	type rec struct {
 		id        int
@@ -315,6 +320,11 @@ func Live(impl int64, n int) Sx {
 			atomic.AddInt64(&progress, 1)
 		}
 	}()
+	if lazy {
+		time.Sleep(3 * time.Millisecond)
+		t.Start()
+		t.Start()
+	}
 	// wait until the delivery channel is full, or all timers are started and the worker
 	// had time to look at them (either way the verdict below is a count)
 	deadline := time.Now().Add(3 * time.Second)
